@@ -452,6 +452,8 @@ structure Mon where
   dirtyAt : Option Nat := none
   /-- proposals created after a group write in their own block -/
   createdDirty : List Nat := []
+  /-- C06 ghost: the pass requirements (threshold incl. total weight) each proposal showed when first seen -/
+  thr0 : AMap String String := []
   /-- number of successful top-level Execute transactions per proposal id -/
   execOk : AMap Nat Nat := []
   /-- refunds seen per proposal id (top-level Execute / Close, or inferred nested Close) -/
@@ -555,6 +557,24 @@ def monitorOp (mu : Mon) (prev : Args) (toks : List String) (implOk : Bool) (out
             (if snapMember sn b.addr == some b.weight then [] else
               [mk "C06" "C06/flex/voter-ballot-not-snapshot" s!"id={p.id} voter={b.addr} ballot={b.weight} Member(at_height={r.start})={optNatStr (snapMember sn b.addr)}"]) ++
             (if b.weight ≥ 1 then [] else [mk "C06" "C06/flex/zero-weight-ballot" s!"id={p.id} voter={b.addr}"]))
+    -- the total a proposal is measured against never changes after creation, in any view of the proposal
+    let thrOf (e : String) : String × String := match e.splitOn "|" with
+      | id :: _ :: _ :: thr :: _ => (id, thr)
+      | _ => ("", "")
+    let views := ((cur.list "props").map thrOf) ++ ((cur.list "pprops").map thrOf)
+    let mu : Mon := { mu with thr0 := views.foldl (fun (acc : AMap String String) (v : String × String) =>
+      if v.1 == "" || (AMap.get? acc v.1).isSome then acc else acc.set v.1 v.2) (if fresh then [] else mu.thr0) }
+    let f6 := f6 ++ (views.filterMap fun (v : String × String) =>
+      match AMap.get? mu.thr0 v.1 with
+      | some t0 => if v.1 == "" || t0 == v.2 then none else
+          some (mk "C06" "C06/flex/total-or-threshold-changed" s!"id={v.1} at_creation={t0} now={v.2}")
+      | none => none)
+    -- the same fact is C05's "threshold … fixed at creation"
+    let f5thr := (views.filterMap fun (v : String × String) =>
+      match AMap.get? mu.thr0 v.1 with
+      | some t0 => if v.1 == "" || t0 == v.2 then none else
+          some (mk "C05" "C05/flex/threshold-changed" s!"id={v.1} at_creation={t0} now={v.2}")
+      | none => none)
     let f6 := f6 ++
       (if (cur.list "pvotes").all (fun b => (cur.list "votes").contains b) then [] else [mk "C06" "C06/flex/vote-views-differ" "Vote vs ListVotes"]) ++
       (let ks := O.votes.map fun b => (b.id, b.addr)
@@ -688,6 +708,8 @@ def monitorOp (mu : Mon) (prev : Args) (toks : List String) (implOk : Bool) (out
               | some q => if q.status == "executed" then [] else [mk "C05" "C05/execute-not-executed" s!"id={opId} status={q.status}"]
               | none => []) ++
             (if p.status == "executed" then [mk "C05" "C05/executed-twice" s!"id={opId} was already executed"] else []) ++
+            -- where an executor is configured only an authorised caller dispatches (having voted authorises nobody)
+            (if authorised then [] else [mk "C05" "C05/flex/execute-by-unauthorised" s!"id={opId} sender={snd} executor={cfgExecutor prev}"]) ++
             -- out = refund? ++ exactly the proposed messages, in order
             (let expect := (match refundText p.dep p.proposer with | some r => [r] | none => []) ++ splitMsgs p.msgs
              if splitMsgs outMsgs == expect then [] else
@@ -803,7 +825,7 @@ def monitorOp (mu : Mon) (prev : Args) (toks : List String) (implOk : Bool) (out
           else [mk "C15" "C15/flex/close-refused-deposit-stuck" s!"id={opId} stored={r.status} deposit={p.dep}"]
         else []
       | _, _ => [])
-    (mu, f3 ++ f5 ++ f6 ++ f15)
+    (mu, f3 ++ f5 ++ f5thr ++ f6 ++ f15)
 
 def scen : Scen MState Mon where
   init h := { pool := h.list "pool", cw20 := h.str "cw20", group := h.str "group", flex := h.str "flex", ghost := h.str "ghost",
